@@ -151,6 +151,24 @@ impl Check for C05 {
             return;
         };
         let phash = crate::kernel::stable_hash_json(&module_json(&module));
+        // a cheap look first (natural schedule, ample limit): a program that runs into its budget
+        // or allocates tens of thousands of times costs minutes with a collection at every
+        // allocation and is discarded anyway / tells nothing new
+        ctx.progress("run dry");
+        let dry = run_sched(&p, &sched(GcPlan::Natural, false, 64 << 20));
+        ctx.evaluation();
+        if dry.panic.is_some() || dry.aborted {
+            ctx.count("discarded_baseline_crash", 1);
+            return;
+        }
+        if crate::ctl::vmrun::innermost(&dry.result) == "Timeout" {
+            ctx.count("discarded_baseline_timeout", 1);
+            return;
+        }
+        if dry.counters.allocs > 60_000 {
+            ctx.count("discarded_too_many_allocation_points", 1);
+            return;
+        }
         // footprint under the tightest schedule, ample limit, real frees
         ctx.progress("run every");
         let every = sched(GcPlan::Every, false, 64 << 20);
